@@ -85,8 +85,8 @@ func (e *Env) Type(symbol string) (reflect.Type, error) {
 
 // GetValueSymbols returns all value symbol in the current scope.
 func (e *Env) GetTypeSymbols() []string {
-	symbols := make([]string, 0, len(e.types))
 	e.rwMutex.RLock()
+	symbols := make([]string, 0, len(e.types))
 	for symbol := range e.types {
 		symbols = append(symbols, symbol)
 	}
